@@ -239,13 +239,13 @@ def handleC07 (fields : List String) : Verdict :=
     | some f, some r =>
       let m := BDD.model f
       let vars := varsOf [f, r]
-      let unsat := (findAsg vars (fun σ => !(eval f σ))).isNone
+      let unsat := (findSat vars f).isNone
       let o :=
         if unsat then (if r == .F then none else some "f is unsatisfiable but model(f) is not the false leaf")
         else if r == .F then some "f is satisfiable but model(f) is the false leaf"
         else if ¬ IsCube r then some s!"model(f) is not a single conjunction of literals: {showBDD r}"
         else orElse
-          (match findAsg vars (fun σ => !(eval r σ) || eval f σ) with
+          (match findNotImpl vars r f with
             | some a => some s!"assignment {showAsg vars a} satisfies model(f) but not f"
             | none => none)
           (match (support r).filter (fun x => !(support f).contains x) with
@@ -259,7 +259,7 @@ def handleC07 (fields : List String) : Verdict :=
       let m := BDD.infer f v
       let showP := fun (p : Bool × Bool) => (if p.1 then "1" else "0") ++ (if p.2 then "1" else "0")
       let vars := dedup (varsOf [f] ++ [v])
-      let forced := (findAsg vars (fun σ => !(eval f σ) || σ v)).isNone
+      let forced := (findNotImpl vars f (BDD.var v)).isNone
       let o := if (ans == "11") != forced then some s!"infer answers {ans} but 'm forces v true' is {forced}" else none
       { modelOk := (showP m == ans), modelOut := showP m, oracle := o, nontrivial := f.isChoice }
     | _, _ => Verdict.badLine "unreadable infer line"
@@ -275,9 +275,9 @@ def handleC20 (fields : List String) : Verdict :=
       let vars := varsOf [f, r]
       let o :=
         orElse (match flt with
-          | "t" => (findAsg vars (fun σ => !(eval f σ) || eval r σ)).map
+          | "t" => (findNotImpl vars f r).map
               (fun a => s!"filter True: {showAsg vars a} satisfies f but not the result")
-          | "f" => (findAsg vars (fun σ => !(eval r σ) || eval f σ)).map
+          | "f" => (findNotImpl vars r f).map
               (fun a => s!"filter False: {showAsg vars a} satisfies the result but not f")
           | _ => if r == f then none else some "filter Any changed the diagram") <|
         orElse (if ROBDD f then robddMsg "the result" r else none) <|
